@@ -17,6 +17,8 @@ type Clause struct {
 	E     Expr
 	Line  int
 	Props []string // optional property tags: `ensures [C39] ...`
+	Lo, Hi int     // split clauses: range of the case split
+	Local  bool    // `proves` clause: not assumed at call sites of ordinary functions
 }
 
 // Contract is the contract of one function (or function literal).
@@ -60,6 +62,9 @@ type Contract struct {
 	Iface    bool // interface-method contract, fanned out to implementers
 	Derived  string // key of the interface contract this one was copied from
 	Opaque   bool
+	Timeout  int      // seconds per obligation (0 = tier default)
+	Unroll   int      // recursive spec function: number of pre-unfoldings of the definition
+	Uses     []string // lemmas (proved separately) assumed at the entry of this function's proof
 	Ghost    bool    // ghost func: a sequence of contract applications (lemma over contracts)
 	Calls    []*GhostCall
 }
@@ -87,6 +92,7 @@ type Lemma struct {
 	Props   []string
 	File    string
 	Line    int
+	Induct  string // non-empty: proved by induction on this variable (base + step obligations)
 }
 
 // AutoSpec asks for synthesized thin contracts.
@@ -122,8 +128,8 @@ type ContractSet struct {
 	Files  []string
 }
 
-var clauseKw = map[string]bool{"uninterpreted": true, "callsite": true, "forbid": true, "allocbound": true, "callback": true, "auto": true, "interface": true, "func": true, "pure": true, "opaque": true, "ghost": true, "call": true, "assume": true, "lemma": true, "arith": true, "requires": true,
-	"ensures": true, "loop": true, "closure": true, "modifies": true, "claims": true, "cover": true, "inline": true,
+var clauseKw = map[string]bool{"uninterpreted": true, "uses": true, "timeout": true, "callsite": true, "forbid": true, "allocbound": true, "callback": true, "auto": true, "interface": true, "func": true, "pure": true, "opaque": true, "ghost": true, "call": true, "assume": true, "lemma": true, "arith": true, "requires": true,
+	"ensures": true, "proves": true, "loop": true, "closure": true, "modifies": true, "claims": true, "cover": true, "inline": true,
 	"replay": true, "props": true, "split": true, "hint": true, "end": true}
 
 // LoadContracts reads every zz_verif_contracts.go below root.
@@ -278,12 +284,17 @@ func (cs *ContractSet) loadFile(path, pkg string) error {
 				return errf("lemma needs `name: formula`")
 			}
 			name := strings.TrimSpace(rest[:i])
+			induct := ""
+			if nf := strings.Fields(name); len(nf) == 3 && nf[1] == "induction" {
+				// `lemma name induction n: forall n int :: n >= 0 ==> P(n)`
+				name, induct = nf[0], nf[2]
+			}
 			props, body := splitProps(strings.TrimSpace(rest[i+1:]))
 			e, err := ParseExpr(body)
 			if err != nil {
 				return errf("%v", err)
 			}
-			cs.Lemmas = append(cs.Lemmas, &Lemma{Name: name, PkgPath: pkg, E: e, Text: body, Props: props, File: path, Line: l.line})
+			cs.Lemmas = append(cs.Lemmas, &Lemma{Name: name, PkgPath: pkg, E: e, Text: body, Props: props, File: path, Line: l.line, Induct: induct})
 			cur, target = nil, nil
 		case "forbid":
 			// `forbid props Cxx pkg <path>` / `forbid props Cxx func <key> <key> ...`:
@@ -447,11 +458,14 @@ func addClause(c *Contract, text string, line int) error {
 			return err
 		}
 		c.Requires = append(c.Requires, cl)
-	case "ensures":
+	case "ensures", "proves":
+		// `proves` = a postcondition that is proved for the function but not handed to its callers
+		// (used only by ghost lemmas over the contract): keeps callers' queries small
 		cl, err := mk(rest)
 		if err != nil {
 			return err
 		}
+		cl.Local = kw == "proves"
 		if cl.Text == "nopanic" {
 			c.Claims["nopanic"] = true
 			return nil
@@ -516,14 +530,34 @@ func addClause(c *Contract, text string, line int) error {
 		for _, f := range strings.Fields(strings.ReplaceAll(rest, ",", " ")) {
 			c.Props = append(c.Props, f)
 		}
+	case "timeout":
+		// per-obligation solver time limit (seconds) for this function when it exceeds the tier's default
+		n, err := strconv.Atoi(rest)
+		if err != nil || n < 1 || n > 600 {
+			return fmt.Errorf("timeout N (seconds)")
+		}
+		c.Timeout = n
+	case "uses":
+		for _, f := range strings.Fields(strings.ReplaceAll(rest, ",", " ")) {
+			c.Uses = append(c.Uses, f)
+		}
 	case "replay":
 		c.Replay = append(c.Replay, rest)
 	case "split":
-		cl, err := mk(rest)
+		// `split e in lo..hi`: every postcondition is proved case by case (e == lo, ..., e == hi, and e outside)
+		i := strings.LastIndex(rest, " in ")
+		if i < 0 {
+			return fmt.Errorf("split e in lo..hi")
+		}
+		var lo, hi int
+		if _, err := fmt.Sscanf(strings.TrimSpace(rest[i+4:]), "%d..%d", &lo, &hi); err != nil || hi < lo || hi-lo > 4096 {
+			return fmt.Errorf("split e in lo..hi: bad range %q", rest[i+4:])
+		}
+		e, err := ParseExpr(strings.TrimSpace(rest[:i]))
 		if err != nil {
 			return err
 		}
-		c.Splits = append(c.Splits, cl)
+		c.Splits = append(c.Splits, &Clause{Text: rest, E: e, Line: line, Lo: lo, Hi: hi})
 	case "allocbound":
 		cl, err := mk(rest)
 		if err != nil {
@@ -709,6 +743,15 @@ func parseHeader(c *Contract, hdr, pkg string) error {
 		}
 	} else if s != "" {
 		c.SpecRTy = s
+		if f := strings.Fields(s); len(f) == 3 && f[1] == "unroll" {
+			// `pure func f(k T) R unroll N = body`: applications use the definition pre-unfolded N times
+			c.SpecRTy = f[0]
+			if n, err := strconv.Atoi(f[2]); err == nil && n > 0 && n <= 512 {
+				c.Unroll = n
+			} else {
+				return fmt.Errorf("unroll N: bad count %q", f[2])
+			}
+		}
 	}
 	if c.Uninterp {
 		// `uninterpreted func f(params) T`: a spec-level function symbol without a definition
